@@ -395,6 +395,8 @@ func (i *interpreter) runPath(p *program, pkg *ssa.Package, fn *ssa.Function, pr
 	i.world = &world{counters: map[string]int{}, poolMode: 1}
 	i.frozen = nil
 	i.allocLimit = nil
+	i.race = nil
+	i.inAtomic, i.inMapWrite, i.inSyncMap = false, false, false
 
 	args := make([]value, len(i.job.args))
 	for k, a := range i.job.args {
